@@ -9,7 +9,7 @@ P = {
          "Every pickle of the safe configuration matrix (128 mutator subsets x 6 protocols enumerated; ranges, rates, opt-in flags, both entropy modes drawn), every opcode-choice sequence up to a fixed depth (fuzzer-bytes steering) 45k+ opcode pickles, recipe-steered alias-heavy pickles, a deep-state block (one opcode chosen greedily for 4 200..20 500 steps: thousands of pending MARKs / stack entries / memo entries when the collapse tail starts), generators reused after earlier pickles (five hand-over styles incl. public-field writes) and files written by the built CLI (single and batch mode) are executed on an independent flat reference machine; a sample plus every flagged pickle is re-judged by CPython pickletools.dis. Exploration is the right level: the property is a universal statement over an unbounded input/config space whose failures need specific opcode interleavings, which a monitor over many real executions reaches and a finite run cannot prove.",
          "5.C01"),
  "C02": ("O2 memo model over returned pickles incl. >256-entry memos; CPython dis differential",
-         "Memo rules (GET defined, PUT fresh, no PUT on MARK/empty) are replayed on every output of the safe matrix plus long 3000..6000-opcode pickles with OffByOne/MemoIndex(safe) at rate 1.0/0.5, so that memos exceed 256 entries and mutated indices miss, plus the deep-state block (up to 20 500 memo entries, thorough 70 000), reused generators and CLI-produced files; evidence counts GET/PUT executions, >256-entry pickles and BINPUTs issued past entry 256.",
+         "Memo rules (GET defined, PUT fresh, no PUT on MARK/empty) are replayed on every output of the safe matrix plus long 3000..6000-opcode pickles with OffByOne/MemoIndex(safe) at rate 1.0/0.5, so that memos exceed 256 entries and mutated indices miss, plus the deep-state block (up to 20 500 memo entries, thorough 40 000), reused generators and CLI-produced files; evidence counts GET/PUT executions, >256-entry pickles and BINPUTs issued past entry 256.",
          "5.C02"),
  "C03": ("kind-tracking reference machine on executed opcodes + precondition check of every offered opcode, confirmed by steering",
          "Typed opcodes are checked where executed (returned bytes on O2 with kinds) and where merely offered (hook Choice events against the reference state; an offered-but-illegal opcode is steered to and must then fail on the real output before it counts). Workloads: safe matrix, exhaustive decision-tree prefixes, abstract-state BFS, 46 object-heavy recipes, 5000+ opcode pickles, deep-state block.",
